@@ -1,0 +1,247 @@
+//! Verification hooks. Compiled only with `--cfg arc_swap_verif`; never part of a normal build.
+//!
+//! This provides drop-in wrappers around [`core::sync::atomic::AtomicUsize`] and
+//! [`core::sync::atomic::AtomicPtr`] with exactly the operations the crate uses. Every operation
+//! calls an optional `before` hook, performs the real core operation and calls an optional `after`
+//! hook, passing a description of the operation (kind, address, operands, orderings, result).
+//!
+//! With no hooks installed (the default) the wrappers are the identity. The hooks let an external
+//! verification harness observe the sequence of atomic events a function performs and let it act
+//! as "all the other threads" in between two atomic steps.
+#![allow(missing_docs)]
+
+use core::fmt::{Debug, Formatter, Result as FmtResult};
+use core::sync::atomic::{self, Ordering};
+
+/// The kind of an atomic operation.
+#[derive(Clone, Copy, Debug, PartialEq, Eq)]
+pub enum Op {
+    Load,
+    Store,
+    Swap,
+    Cas,
+    CasWeak,
+    FetchAdd,
+    FetchSub,
+}
+
+/// One atomic operation, as seen by the hooks.
+#[derive(Clone, Copy, Debug)]
+pub struct Event {
+    pub op: Op,
+    /// Address of the atomic cell.
+    pub addr: usize,
+    /// The operand (stored value, addend) or the expected value of a compare-exchange.
+    pub a: usize,
+    /// The new value of a compare-exchange.
+    pub b: usize,
+    /// The (success) ordering requested.
+    pub ord: Ordering,
+    /// The failure ordering of a compare-exchange.
+    pub ord_fail: Ordering,
+    /// The value read (only meaningful in the `after` hook).
+    pub result: usize,
+    /// If the compare-exchange succeeded (only meaningful in the `after` hook).
+    pub ok: bool,
+}
+
+/// Hook run just before each atomic operation.
+pub static mut BEFORE: Option<fn(&Event)> = None;
+/// Hook run just after each atomic operation.
+pub static mut AFTER: Option<fn(&Event)> = None;
+
+/// Installs (or removes) the hooks.
+///
+/// # Safety
+///
+/// Must not race with any atomic operation of the crate on another thread.
+pub unsafe fn set_hooks(before: Option<fn(&Event)>, after: Option<fn(&Event)>) {
+    BEFORE = before;
+    AFTER = after;
+}
+
+#[inline]
+fn before(ev: &Event) {
+    if let Some(f) = unsafe { BEFORE } {
+        f(ev);
+    }
+}
+
+#[inline]
+fn after(ev: &Event) {
+    if let Some(f) = unsafe { AFTER } {
+        f(ev);
+    }
+}
+
+#[inline]
+fn event(op: Op, addr: usize, a: usize, b: usize, ord: Ordering, ord_fail: Ordering) -> Event {
+    Event {
+        op,
+        addr,
+        a,
+        b,
+        ord,
+        ord_fail,
+        result: 0,
+        ok: true,
+    }
+}
+
+macro_rules! rmw {
+    ($self: ident, $op: expr, $a: expr, $ord: expr, $real: expr) => {{
+        let mut ev = event($op, $self as *const _ as usize, $a, 0, $ord, $ord);
+        before(&ev);
+        let r = $real;
+        ev.result = r as usize;
+        after(&ev);
+        r
+    }};
+}
+
+macro_rules! cas {
+    ($self: ident, $op: expr, $cur: expr, $new: expr, $s: expr, $f: expr, $real: expr) => {{
+        let mut ev = event($op, $self as *const _ as usize, $cur as usize, $new as usize, $s, $f);
+        before(&ev);
+        let r = $real;
+        match r {
+            Ok(v) => {
+                ev.result = v as usize;
+                ev.ok = true;
+            }
+            Err(v) => {
+                ev.result = v as usize;
+                ev.ok = false;
+            }
+        }
+        after(&ev);
+        r
+    }};
+}
+
+/// Drop-in for [`core::sync::atomic::AtomicUsize`].
+#[repr(transparent)]
+#[derive(Default)]
+pub struct AtomicUsize(atomic::AtomicUsize);
+
+impl AtomicUsize {
+    #[inline]
+    pub const fn new(v: usize) -> Self {
+        AtomicUsize(atomic::AtomicUsize::new(v))
+    }
+    #[inline]
+    pub fn get_mut(&mut self) -> &mut usize {
+        self.0.get_mut()
+    }
+    #[inline]
+    pub fn load(&self, ord: Ordering) -> usize {
+        rmw!(self, Op::Load, 0, ord, self.0.load(ord))
+    }
+    #[inline]
+    pub fn store(&self, v: usize, ord: Ordering) {
+        rmw!(self, Op::Store, v, ord, {
+            self.0.store(v, ord);
+            v
+        });
+    }
+    #[inline]
+    pub fn swap(&self, v: usize, ord: Ordering) -> usize {
+        rmw!(self, Op::Swap, v, ord, self.0.swap(v, ord))
+    }
+    #[inline]
+    pub fn fetch_add(&self, v: usize, ord: Ordering) -> usize {
+        rmw!(self, Op::FetchAdd, v, ord, self.0.fetch_add(v, ord))
+    }
+    #[inline]
+    pub fn fetch_sub(&self, v: usize, ord: Ordering) -> usize {
+        rmw!(self, Op::FetchSub, v, ord, self.0.fetch_sub(v, ord))
+    }
+    #[inline]
+    pub fn compare_exchange(
+        &self,
+        cur: usize,
+        new: usize,
+        s: Ordering,
+        f: Ordering,
+    ) -> Result<usize, usize> {
+        cas!(self, Op::Cas, cur, new, s, f, self.0.compare_exchange(cur, new, s, f))
+    }
+    #[inline]
+    pub fn compare_exchange_weak(
+        &self,
+        cur: usize,
+        new: usize,
+        s: Ordering,
+        f: Ordering,
+    ) -> Result<usize, usize> {
+        cas!(self, Op::CasWeak, cur, new, s, f, self.0.compare_exchange_weak(cur, new, s, f))
+    }
+}
+
+impl Debug for AtomicUsize {
+    fn fmt(&self, fmt: &mut Formatter) -> FmtResult {
+        Debug::fmt(&self.0, fmt)
+    }
+}
+
+/// Drop-in for [`core::sync::atomic::AtomicPtr`].
+#[repr(transparent)]
+pub struct AtomicPtr<T>(atomic::AtomicPtr<T>);
+
+impl<T> AtomicPtr<T> {
+    #[inline]
+    pub const fn new(v: *mut T) -> Self {
+        AtomicPtr(atomic::AtomicPtr::new(v))
+    }
+    #[inline]
+    pub fn get_mut(&mut self) -> &mut *mut T {
+        self.0.get_mut()
+    }
+    #[inline]
+    pub fn load(&self, ord: Ordering) -> *mut T {
+        rmw!(self, Op::Load, 0, ord, self.0.load(ord))
+    }
+    #[inline]
+    pub fn store(&self, v: *mut T, ord: Ordering) {
+        rmw!(self, Op::Store, v as usize, ord, {
+            self.0.store(v, ord);
+            v
+        });
+    }
+    #[inline]
+    pub fn swap(&self, v: *mut T, ord: Ordering) -> *mut T {
+        rmw!(self, Op::Swap, v as usize, ord, self.0.swap(v, ord))
+    }
+    #[inline]
+    pub fn compare_exchange(
+        &self,
+        cur: *mut T,
+        new: *mut T,
+        s: Ordering,
+        f: Ordering,
+    ) -> Result<*mut T, *mut T> {
+        cas!(self, Op::Cas, cur, new, s, f, self.0.compare_exchange(cur, new, s, f))
+    }
+    #[inline]
+    pub fn compare_exchange_weak(
+        &self,
+        cur: *mut T,
+        new: *mut T,
+        s: Ordering,
+        f: Ordering,
+    ) -> Result<*mut T, *mut T> {
+        cas!(self, Op::CasWeak, cur, new, s, f, self.0.compare_exchange_weak(cur, new, s, f))
+    }
+}
+
+impl<T> Default for AtomicPtr<T> {
+    fn default() -> Self {
+        Self::new(core::ptr::null_mut())
+    }
+}
+
+impl<T> Debug for AtomicPtr<T> {
+    fn fmt(&self, fmt: &mut Formatter) -> FmtResult {
+        Debug::fmt(&self.0, fmt)
+    }
+}
